@@ -829,6 +829,7 @@ Inductive sc : list N -> Prop :=
 | sc_8 d c rest : sc (8 :: d :: c :: rest)
 | sc_9 k rest : sc (9 :: k :: rest)
 | sc_10 n rest : sc (10 :: n :: rest)
+| sc_11 n rest : sc (11 :: n :: rest)
 | sc_bad script : (forall f r w, run_handler maxc (S f) script r w = Halt (OPanic 71) w) -> sc script.
 
 Lemma sc_all script : sc script.
@@ -840,7 +841,7 @@ Proof.
           | apply sc_2 | apply sc_5
           | destruct rest as [|a rest];
             first [ apply sc_bad; reflexivity
-                  | apply sc_1 | apply sc_3 | apply sc_4 | apply sc_7 | apply sc_9 | apply sc_10
+                  | apply sc_1 | apply sc_3 | apply sc_4 | apply sc_7 | apply sc_9 | apply sc_10 | apply sc_11
                   | destruct rest as [|b rest]; first [ apply sc_bad; reflexivity | apply sc_6 | apply sc_8 ] ] ].
 Qed.
 
@@ -848,7 +849,7 @@ Lemma sim_run_handler fuel : forall script r w1 w2, sms w1 w2 ->
   rsim (run_handler maxc fuel script r w1) (run_handler maxc fuel script r w2).
 Proof.
   induction fuel as [|f IH]; intros script r w1 w2 HS; [exact I|].
-  destruct (sc_all script) as [|n rest|rest|k rest|s rest|rest|s n rest|s rest|d c rest|k rest|n rest|script BAD].
+  destruct (sc_all script) as [|n rest|rest|k rest|s rest|rest|s n rest|s rest|d c rest|k rest|n rest|n rest|script BAD].
   - cbn [run_handler]. apply rsim_ok. apply sms_ev. exact HS.
   - cbn [run_handler]. rewrite <- (sms_io_fuel w1 w2 _ HS).
     pose proof (sim_await_input (io_fuel w1 0) (Some n) r w1 w2 HS (io_fuel_sl _ _)) as H.
@@ -872,6 +873,12 @@ Proof.
   - cbn [run_handler]. rewrite <- (sms_io_fuel w1 w2 _ HS).
     pose proof (sim_await_input (io_fuel w1 0) (Some n) r w1 w2 HS (io_fuel_sl _ _)) as H.
     sim_destruct H. destruct a as [[[c b]|k] r']; [apply IH|apply rsim_ok]; repeat apply sms_ev; exact HS'.
+  - (* 11 n: a single poll gives the same result in both worlds; Pending is not retried *)
+    cbn [run_handler]. rewrite <- (sms_io_fuel w1 w2 _ HS).
+    destruct (sms_poll_input (io_fuel w1 (len (buffer (rsp r)))) (Some n) r w1 w2 HS) as [E1 S1].
+    destruct (poll_input maxc _ (Some n) r w1) as [[p1 r1] w1']. destruct (poll_input maxc _ (Some n) r w2) as [[p2 r2] w2'].
+    cbn [fst snd] in E1, S1. injection E1 as <- <-.
+    destruct p1 as [[[c b]|k]| |]; apply IH; repeat apply sms_ev; exact S1.
   - rewrite BAD. exact I.
 Qed.
 End SimA.
